@@ -149,6 +149,7 @@ func computeOracle(op *Op, ll []*LLValidator, variant string) Outcome {
 		o.Kind = KSchemaNR
 		o.Schema = ll[op.LL].Schema
 		o.Path = ll[op.LL].Path
+		o.NoHash = strings.Contains(o.Schema, "$ref")
 	case KLLParam:
 		o.Kind = KParam
 		o.Schema = ll[op.LL].Schema
@@ -267,6 +268,21 @@ func runHistory(sc *Scenario, oc *oracleCache, keepLog bool, compareNR bool) *Ru
 				Detail: fmt.Sprintf("operation #%d (%s) differs from the same operation executed alone with fresh objects", i, op.brief()),
 			})
 			break
+		}
+		if strings.HasPrefix(op.Kind, "ll_") {
+			// the same call on a freshly built validator under another map order: verdict and message sets must agree
+			alt := *op
+			alt.OrderSeed = mixSeed(op.OrderSeed, 0x5eed) | 1
+			other := oc.get(&alt, sc.LL, "fresh")
+			if other.Panic == "" && other.SetKey() != got.SetKey() {
+				rep.Violations = append(rep.Violations, Violation{
+					Property: sc.Property, Class: "order-dependence", OpUID: op.UID, OpKind: op.Kind,
+					Site:     mismatchSite(other, got),
+					Expected: other.SetKey(), Got: got.SetKey(),
+					Detail: fmt.Sprintf("operation #%d (%s): verdict/messages differ from a freshly built validator on the same value under another map iteration order", i, op.brief()),
+				})
+				break
+			}
 		}
 		if compareNR {
 			switch op.Kind {
